@@ -47,8 +47,9 @@ KNOWN_CLASSES = {}
 PROPS = {
     "C14": {
         "title": "Encoding and decoding are exact inverses with exact sizes",
-        "corr_modules": ["VarintC", "FrameC"],
-        "suites": [("e1", "varint", ["debug"]), ("e1", "frame", ["debug"]), ("e1", "sheader", ["debug"])],
+        "corr_modules": ["VarintC", "FrameC", "WireC", "QpackC"],
+        "suites": [("e1", "varint", ["debug"]), ("e1", "frame", ["debug"]), ("e1", "sheader", ["debug"]),
+                   ("e1", "settings", ["debug"]), ("e1", "dgram", ["debug"]), ("e1", "qpack", ["debug"])],
         "technique": "Rocq proof (induction over byte counts / lists) on an executable Gallina model + differential correspondence check against the Rust code",
         "level_text": "machine-checked theorems for all values/byte strings (no size bound) about the Gallina model of the codec; model tied to /repo by running model and implementation on the same generated and exhaustive-range cases every run",
         "level_note": "trusts: Coq kernel+VM, the hand-written model (validated differentially, finite tables exhaustively), the Rust harness; octets/std are modelled, not verified",
@@ -75,13 +76,88 @@ PROPS["C15"] = {
 
 PROPS["C13"] = {
     "title": "Unknown and GREASE protocol elements are skipped whole, with no side effects",
-    "corr_modules": ["StreamTSC"],
-    "suites": [("e1", "typestate", ["debug"])],
+    "corr_modules": ["StreamTSC", "WireC"],
+    "suites": [("e1", "typestate", ["debug"]), ("e1", "settings", ["debug"]), ("e1", "capsule", ["debug"])],
     "technique": PROOF_TECH,
     "level_text": "theorems: an unknown frame of any type id / payload is consumed whole on the sync and async paths of every typestate, and any number of insertions at frame boundaries leaves the delivered frames and the ending unchanged (induction over the exchange); pre-repair code refuted by a computed witness; tie: metamorphic differential runs",
     "level_note": CODEC_NOTE,
     "design_ref": "DESIGN.md 5 (C13), 6",
     "trusted_base": [],
+    "assumptions": [],
+}
+
+PROPS["C17"] = {
+    "title": "Identifier algebra is exact and foreign-session traffic is never delivered",
+    "corr_modules": ["WireC", "FrameC"],
+    "suites": [("e1", "ids", ["debug"]), ("e1", "dgram", ["debug"])],
+    "technique": PROOF_TECH,
+    "level_text": "theorems for all 2^62 ids: acceptance iff client-initiated bidirectional, conversions mutually inverse and in range, unsafe preconditions never violated, parsed session ids always valid; tie: differential runs over all low-bit classes x boundary magnitudes",
+    "level_note": CODEC_NOTE + "; the driver-level session filter (foreign streams stopped, foreign datagrams dropped) is exercised by the wire engine, see DESIGN.md",
+    "design_ref": "DESIGN.md 5 (C17)",
+    "trusted_base": [],
+    "assumptions": [],
+}
+
+PROPS["C03"] = {
+    "title": "Datagram payloads are never altered and the size contract is exact",
+    "corr_modules": ["WireC"],
+    "suites": [("e1", "dgram", ["debug"])],
+    "technique": PROOF_TECH,
+    "level_text": "theorems: datagram framing round-trips for every session id and payload, a delivered payload is exactly the suffix after the quarter-stream-id, L <= max <=> not refused as too large, the maximum is total and never exceeds the transport's (pre-repair code refuted by a computed witness); tie: differential runs of the proto codec",
+    "level_note": CODEC_NOTE + "; loss/reordering are allowed by the property and not modelled; quinn's datagram transport is an oracle",
+    "design_ref": "DESIGN.md 5 (C03), 6",
+    "trusted_base": ["quinn's send_datagram size rule (refuses iff longer than max_datagram_size) is modelled from its documentation"],
+    "assumptions": ["QUIC datagrams are delivered unmodified or not at all (quinn)"],
+}
+
+PROPS["C04"] = {
+    "title": "Session termination is reported with the peer's exact code and reason",
+    "corr_modules": ["WireC", "StreamTSC"],
+    "suites": [("e1", "capsule", ["debug"]), ("e1", "typestate", ["debug"])],
+    "technique": PROOF_TECH,
+    "level_text": "theorems about the session-stream runner for every history of skippable elements followed by a close capsule / clean FIN / reset / FIN inside a frame / malformed capsule: exact code and reason, (0,\"\") for a clean finish, protocol failure otherwise; the wire code answered; tie: differential runs of the capsule decoders and the session typestate",
+    "level_note": CODEC_NOTE + "; quinn's transport of CONNECTION_CLOSE is an oracle",
+    "design_ref": "DESIGN.md 5 (C04)",
+    "trusted_base": ["Model/Runner.v connect_run is a hand transcription of driver/streams/connect.rs (private code); its building blocks (typestate reader, capsule decoders) are compared with the code on every run"],
+    "assumptions": [],
+}
+
+PROPS["C18"] = {
+    "title": "Only well-formed WebTransport requests and responses are admitted",
+    "corr_modules": ["WireC", "QpackC"],
+    "suites": [("e1", "status", ["debug"]), ("e1", "qpack", ["debug"])],
+    "technique": PROOF_TECH,
+    "level_text": "theorems: request admitted iff extended CONNECT/webtransport/https with authority and path; every status constructor stays within 100..599 (print/parse identity on the whole range by exhaustive computation inside the proof); acceptance iff 2xx; reserved fields can never be overridden; pre-repair code refuted; tie: all 65 536 status integers plus decorated strings through the real parser",
+    "level_note": CODEC_NOTE + "; '+200' and '0200' denote in-range numbers and are treated as numeric (DESIGN.md 5 C18)",
+    "design_ref": "DESIGN.md 5 (C18), 6",
+    "trusted_base": ["Rust's u16::from_str is modelled (optional '+', digits, overflow) and compared on every run"],
+    "assumptions": [],
+}
+
+PROPS["C11"] = {
+    "title": "Decoding untrusted bytes is total, bounded and invariant-preserving",
+    "corr_modules": ["VarintC", "FrameC", "StreamTSC", "WireC", "QpackC"],
+    "suites": [("e1", "frame", ["debug"]), ("e1", "typestate", ["debug"]), ("e1", "settings", ["debug"]),
+               ("e1", "dgram", ["debug"]), ("e1", "capsule", ["debug"]), ("e1", "qpack", ["debug", "release"]),
+               ("e1", "varint", ["release"])],
+    "oracle_also": [],
+    "technique": PROOF_TECH,
+    "level_text": "theorems for every byte string: no decoder panics, spins or runs out of fuel, returned values respect their invariants, a QPACK integer that does not fit is an error and a returned one equals the mathematical value of the consumed bytes (pre-repair code refuted, both overflow modes); tie: differential runs in debug and release builds (overflow checks on/off), exhaustive short strings, adversarial continuation runs, panics caught",
+    "level_note": CODEC_NOTE + "; the allocation bound is argued from the model's structure (payload buffers only after the 4096 check, string buffers only after the bytes are present) and is not measured by a counting allocator in this revision",
+    "design_ref": "DESIGN.md 5 (C11), 6",
+    "trusted_base": ["usize is modelled as 64 bits (the sandbox target); httlib-huffman OneBit decoding is modelled and compared exhaustively on 1- and 2-byte inputs"],
+    "assumptions": [],
+}
+
+PROPS["C12"] = {
+    "title": "HTTP/3 and WebTransport stream rules are enforced with the prescribed error",
+    "corr_modules": ["StreamTSC", "WireC"],
+    "suites": [("e1", "typestate", ["debug"]), ("e1", "settings", ["debug"])],
+    "technique": PROOF_TECH,
+    "level_text": "theorems: every accept/reject verdict of every typestate for every frame is the one of an independently written specification table (RFC 9114 / WT draft) with a prescribed code; error codes equal the registry; control-stream position rules, duplicated/closed critical streams by theorems on the runner model; tie: all frame sequences to depth 3 (quick) / 4 (thorough) over the property's alphabet through the real typestates",
+    "level_note": CODEC_NOTE + "; the runner functions (private driver code) are hand-transcribed and exercised end to end by the wire engine",
+    "design_ref": "DESIGN.md 5 (C12)",
+    "trusted_base": ["Spec/Spec9114.v is transcribed from the RFCs from memory (the texts are not on disk)"],
     "assumptions": [],
 }
 
